@@ -1,12 +1,21 @@
 #!/bin/sh
-# usage: bin/try_mutant.sh <patch.diff> <prop> [<prop> ...]   — applies the patch to /repo, runs quick checks, reverts.
+# usage: bin/try_mutant.sh <patch.diff> <prop> [<prop> ...]
+# Runs the quick checks against a mutated copy of the repository WITHOUT touching /repo (other
+# work may be building against it): scratch worktree + private harness copy + private target dir.
+# (Equivalent to `git -C /repo apply <patch>; bin/check …; git -C /repo checkout -- .`, which is
+# what to use when nothing else is building against /repo.)
 set -u
 patch="$1"; shift
-cd /repo && git apply "$patch" || { echo "PATCH DOES NOT APPLY"; exit 2; }
+WT=/tmp/mutrun_repo
+git -C /repo worktree remove --force $WT 2>/dev/null
+git -C /repo worktree add -q $WT HEAD || exit 2
+( cd $WT && git apply "$patch" ) || { echo "PATCH DOES NOT APPLY"; git -C /repo worktree remove --force $WT; exit 2; }
+H=/verif/build/mutrun_harness
+rm -rf $H; mkdir -p $H; cp -r /verif/harness/src /verif/harness/Cargo.toml /verif/harness/Cargo.lock /verif/harness/.cargo $H/
+sed -i "s#path = \"/repo\"#path = \"$WT\"#" $H/Cargo.toml
 cd /verif
 for p in "$@"; do
   echo "== $p"
-  timeout 900 bin/check "$p" --tier quick 2>&1 | grep -E "VIOLATION|KNOWN|error|Traceback" | head -5
-  echo "rc=$?"
+  SPECS_REPO=$WT VERIF_HARNESS=$H VERIF_TARGET=/verif/build/mutrun-target timeout 1200 bin/check "$p" --tier quick 2>&1 | grep -E "VIOLATION|KNOWN|error|Traceback" | head -5
 done
-git -C /repo checkout -- . && git -C /repo status --short | head -3
+git -C /repo worktree remove --force $WT
